@@ -846,7 +846,7 @@ func (cs *ContractSet) ParseContractText(pkgPath, file, text string) error {
 				n, err := strconv.Atoi(fs[0])
 				loopSel := ""
 				if err != nil {
-					if strings.HasPrefix(fs[0], "range:") || strings.HasPrefix(fs[0], "for:") {
+					if strings.HasPrefix(fs[0], "range:") || strings.HasPrefix(fs[0], "for:") || fs[0] == "all" {
 						loopSel = fs[0]
 						n = -1
 					} else {
